@@ -1019,6 +1019,69 @@ def gen_recognition_entry(seed, big):
     return out
 
 
+def gen_large_documents(seed, big):
+    """C02/C03/C15 on large inputs (no bound on size, count or depth is part of any statement): documents of several
+    hundred to a few thousand lines and more than 64 KiB, with dozens to hundreds of ready / pending blocks, long lines
+    (> 300 characters), line numbers above 255 and 65535-byte offsets: surviving lines exact (clean), line ranges exact (list)"""
+    rnd = random.Random(seed + 21)
+    out = []
+    for nblocks, filler in ((40, 3), (300, 2)) if not big else ((40, 3), (300, 2), (1200, 4)):
+        lines, keep, regions = [], [], []
+        for b in range(nblocks):
+            for k in range(filler):
+                t = f'line {b}.{k} ' + ('x' * rnd.choice([0, 5, 40, 320])) + ' é'
+                lines.append(t); keep.append(t)
+            kind = rnd.choice(['ready', 'ready', 'pending', 'unwrap'])
+            if kind == 'ready':
+                first = len(lines) + 1
+                lines += [f"<{TL} to='{PAST}'>", f'  gone {b}', f"</{TL}>"]
+                regions.append((first, len(lines)))
+            elif kind == 'pending':
+                blk = [f"<{RM} name='zz'>", f'  kept {b}', f"</{RM}>"]
+                lines += blk; keep += blk
+            else:
+                first = len(lines) + 1
+                lines += [f"<{RM} name='f1' unwrap-block>", 'if x {', f'  body {b}', '}', f"</{RM}>"]
+                keep.append(f'body {b}')
+                regions.append((first, first + 1)); regions.append((len(lines) - 1, len(lines)))
+        lines.append('end'); keep.append('end')
+        src = '\n'.join(lines) + '\n'
+        def oracle(r, keep=keep, n=len(lines)):
+            if not r.get('ok'):
+                return 'clean panicked: ' + str(r.get('panic'))[:160]
+            got = [l.strip(WS) for l in r['output'].split('\n') if l.strip(WS)]
+            want = [l.strip(WS) for l in keep]
+            if got != want:
+                k = next((i for i, (a, b) in enumerate(zip(got, want)) if a != b), min(len(got), len(want)))
+                return f'large document ({n} lines): surviving line {k} is {got[k][:60] if k < len(got) else None!r}, expected {want[k][:60] if k < len(want) else None!r}'
+            return None
+        out.append((dict(cfg(), mode='clean', source=src, ds='<', de='>'), oracle))
+        def oracle_json(r, regions=regions, n=len(lines)):
+            if not r.get('ok'):
+                return 'list (JSON) panicked: ' + str(r.get('panic'))[:160]
+            try:
+                items = json.loads(r['output'])
+            except Exception as ex:
+                return 'list --list-json did not return valid JSON: ' + repr(ex)[:80]
+            got = [tuple(it['line_range']) for it in items]
+            if got != regions:
+                k = next((i for i, (a, b) in enumerate(zip(got, regions)) if a != b), min(len(got), len(regions)))
+                return f'large document ({n} lines): listed region {k} is {got[k] if k < len(got) else None}, expected {regions[k] if k < len(regions) else None} ({len(got)} listed, {len(regions)} expected)'
+            return None
+        out.append((dict(cfg(), mode='list_json', source=src, ds='<', de='>'), oracle_json))
+    return out
+
+
+def gen_large_clean(seed, big):
+    """the clean half of gen_large_documents"""
+    return [c for c in gen_large_documents(seed, big) if c[0]['mode'] == 'clean']
+
+
+def gen_large_list(seed, big):
+    """the list half of gen_large_documents"""
+    return [c for c in gen_large_documents(seed, big) if c[0]['mode'] != 'clean']
+
+
 def gen_blanklines(seed, big):
     """C13: block-style removal with b blank lines before and a after leaves a+b-[a>0 and b>0] blank lines; lines intact"""
     out = []
@@ -1326,8 +1389,8 @@ def _back_same(t, d):
 
 GENERATORS = {
     'C01': [gen_totality], 'C04': [gen_identity, gen_identity_unwrappable, gen_identity_unrecognised, gen_identity_unexpired, gen_identity_decisions, gen_tag_whitespace], 'C07': [gen_partition], 'C08': [gen_recognition, gen_recognition_entry], 'C05': [gen_expiry, gen_env_independent_expiry], 'C06': [gen_marker, gen_tag_whitespace],
-    'C09': [gen_grammar, gen_opaque_decisions], 'C10': [gen_pairing], 'C02': [gen_blocks, gen_inline, gen_nested_text_survives, gen_unwrap_crlf_text, gen_odd_whitespace_lines, gen_tag_whitespace], 'C03': [gen_blocks, gen_inline, gen_nested_text_survives, gen_unwrap_crlf_text, gen_closer_attrs], 'C11': [gen_blocks, gen_unwrap_wrappers, gen_unwrap_four_lines, gen_identity_unwrappable, gen_unwrap_crlf_text], 'C17': [gen_list_all],
-    'C12': [gen_dedent, gen_dedent_nested, gen_dedent_crlf], 'C13': [gen_blanklines, gen_lines_intact, gen_odd_whitespace_lines], 'C14': [gen_inline, gen_dedent_nested, gen_unwrap_lines_intact, gen_unwrap_lines_intact_crlf], 'C15': [gen_list_regions, gen_env_independent_list],
+    'C09': [gen_grammar, gen_opaque_decisions], 'C10': [gen_pairing], 'C02': [gen_blocks, gen_inline, gen_nested_text_survives, gen_unwrap_crlf_text, gen_odd_whitespace_lines, gen_tag_whitespace, gen_large_clean], 'C03': [gen_blocks, gen_inline, gen_nested_text_survives, gen_unwrap_crlf_text, gen_closer_attrs, gen_large_clean], 'C11': [gen_blocks, gen_unwrap_wrappers, gen_unwrap_four_lines, gen_identity_unwrappable, gen_unwrap_crlf_text], 'C17': [gen_list_all],
+    'C12': [gen_dedent, gen_dedent_nested, gen_dedent_crlf], 'C13': [gen_blanklines, gen_lines_intact, gen_odd_whitespace_lines], 'C14': [gen_inline, gen_dedent_nested, gen_unwrap_lines_intact, gen_unwrap_lines_intact_crlf], 'C15': [gen_list_regions, gen_env_independent_list, gen_large_list],
 }
 
 GENERATORS['C01'] = GENERATORS['C01'] + [gen_totality_everywhere]
